@@ -69,7 +69,8 @@ def run(ctx):
         if key in seen or len(seen) >= 6:
             continue
         seen.add(key)
-        ctx.violation(key, "scoping/closure/aliasing program %s: real outcome differs from the reference evaluator" % c["case"],
+        ctx.violation(key, "scoping/closure/aliasing program %s: real outcome differs from the reference evaluator%s" % (
+            c["case"], " with a VM heap of %d cells (agrees with 20000)" % c["mem"] if c.get("mem") else ""),
                       evaldiff.replay_of(c))
     ctx.assumptions.extend(c02mod.NOT_MODELLED)
     ctx.coverage["variant_disagreements"] = len(r["c08"])
